@@ -204,11 +204,22 @@ void do_release_next(Ctx &c) {
     sim::note(sim::PK_HARNESS, nullptr, 3);
     // the consumer hands back a buffer it has written to: len is whatever it filled (0, part, or all of the capacity)
     e.buf.len = (c.next_release % 3 == 0) ? 0 : (c.next_release % 3 == 1) ? e.cap : e.cap / 2;
-    aws_ring_buffer_release(&c.ring, &e.buf);
+    // In single-thread plans the descriptor sometimes lives inside the buffer it describes (a message header at the start of its own
+    // payload): release gets a pointer into ring memory. (With a concurrent acquirer that layout is the caller's problem: the library
+    // resets the descriptor after it has published the span.)
+    struct aws_byte_buf *desc = &e.buf;
+    const bool in_band = !c.two_threads && e.cap >= sizeof(struct aws_byte_buf) + 8 && ((uintptr_t)e.ptr % 8) == 0 && (c.next_release * 2654435761u >> 5) % 4 == 0;
+    if (in_band) {
+        desc = (struct aws_byte_buf *)e.ptr;
+        *desc = e.buf;
+        sim::probe("descriptor_stored_inside_the_buffer_it_describes");
+    }
+    aws_ring_buffer_release(&c.ring, desc);
     e.state = 2;
     c.released_returned++;
     c.ops_done++;
-    if (e.buf.buffer || e.buf.capacity) sim::violation("c15:release-zero", "release did not reset the caller's buffer struct");
+    if (desc->buffer || desc->capacity) sim::violation("c15:release-zero", "release did not reset the caller's buffer struct");
+    if (in_band) AWS_ZERO_STRUCT(e.buf);
 }
 
 void run_ops(Ctx &c, int thr) {
